@@ -8,6 +8,7 @@ import YV.Drv.T
 import YV.Drv.S
 import YV.Drv.V
 import YV.Drv.Cm
+import YV.Drv.Md
 open Lean YV.Drv
 
 def dispatch (j : Json) : List (String × Json) :=
@@ -24,6 +25,7 @@ def dispatch (j : Json) : List (String × Json) :=
   | "yfilter" => Cm.handleFilter j
   | "ycfg" => Cm.handleCfg j
   | "yuses" => Cm.handleUses j
+  | "ymods" => Md.handle j
   | "yvals" => V.handle j
   | k => [("m", Json.str ("unknown-kind:" ++ k)), ("s", Json.str "unknown-kind")]
 
